@@ -168,6 +168,13 @@ def run(R):
             R.ob("C19-R2", "outer-is-all", "the outer quantifier over repairs is `all`", outer == "all", where=qr.where(rets[0].ln))
             eq = [ic for x, ic in inner if ic.name() in ("eq", "ne")]
             R.ob("C19-R2", "binding-compared", "a repair supports a candidate only if it yields the same binding", bool(eq), where=qr.where(rets[0].ln))
+    # answers are made by the matcher, which checks a repeated variable against its first binding
+    if qr is not None:
+        fam_calls = {c.name() for x in prog.family(qr.key) for c in x.calls()}
+        R.ob("C19-R2", "matcher", "query_with_repairs obtains its bindings from matches_rule_pattern (a goal that repeats a variable binds it once)",
+             "matches_rule_pattern" in fam_calls, where=qr.where(),
+             detail=None if "matches_rule_pattern" in fam_calls else "bindings assembled by position let the later occurrence of a repeated variable overwrite the earlier one: "
+             "`?x knows ?x` returns every `knows` fact")
     wr = R.body("C19-R4", "Reasoner::infer_new_facts_semi_naive_with_repairs", crate="datalog")
     if wr is not None:
         # insertions of derived facts: dataset_index.insert / all_facts.insert inside the rule loop
